@@ -12,7 +12,7 @@ package api
 
 //@ template optCtor(F, OT, T)
 //@ func $F
-//@   props C14 C03 C04 C05
+//@   props C14 C03 C04 C05 C20
 //@   ensures [nil]     v == nil ==> result == nil
 //@   ensures [own]     typeis(v, "$T") ==> result != nil && result.Value == ifaceval(v, "$T")
 //@   ensures [ptrnil]  typeis(v, "*$T") && ifaceval(v, "*$T") == nil ==> result == nil
@@ -28,6 +28,18 @@ package api
 //@ apply optCtor(Int64, OptionalInt64, int64)
 //@ apply optCtor(UInt64, OptionalUInt64, uint64)
 //@ apply optCtor(Bool, OptionalBool, bool)
+
+//@ func FileMode
+//@   props C14 C20
+//@   ensures [nil]     v == nil ==> result == nil
+//@   ensures [u32]     typeis(v, "uint32") ==> result != nil && result.Value == ifaceval(v, "uint32")
+//@   ensures [mode]    typeis(v, "os.FileMode") ==> result != nil && result.Value == ifaceval(v, "os.FileMode")
+//@   ensures [ptrnil]  typeis(v, "*os.FileMode") && ifaceval(v, "*os.FileMode") == nil ==> result == nil
+//@   ensures [ptr]     typeis(v, "*os.FileMode") && ifaceval(v, "*os.FileMode") != nil ==> result != nil && result.Value == deref(ifaceval(v, "*os.FileMode"))
+//@   ensures [wrapnil] typeis(v, "*OptionalFileMode") && ifaceval(v, "*OptionalFileMode") == nil ==> result == nil
+//@   ensures [wrap]    typeis(v, "*OptionalFileMode") && ifaceval(v, "*OptionalFileMode") != nil ==> result != nil && result.Value == ifaceval(v, "*OptionalFileMode").Value
+//@   ensures [other]   v != nil && !typeis(v, "uint32") && !typeis(v, "os.FileMode") && !typeis(v, "*os.FileMode") && !typeis(v, "*OptionalFileMode") ==> result == nil
+//@   ensures [fresh]   result != nil ==> fresh(result)
 
 // ---------------------------------------------------------------------------
 // Plugin index and name (plugin.go)
@@ -98,3 +110,40 @@ package api
 //@   loop 2 invariant forall k string :: visited(k) ==> has(o.Unified, k) && o.Unified[k] == r.Unified[k]
 //@   loop 2 invariant forall k string :: has(o.Unified, k) ==> has(r.Unified, k) && o.Unified[k] == r.Unified[k]
 //@   loop 2 invariant o.Memory == pre(o.Memory) && o.Cpu == pre(o.Cpu) && o.HugepageLimits == pre(o.HugepageLimits)
+
+// ---------------------------------------------------------------------------
+// Adjustment builders used by the sample plugins (adjustment.go) — C20
+// ---------------------------------------------------------------------------
+//@ func ContainerAdjustment.AddMount
+//@   props C20
+//@   requires a != nil
+//@   modifies a.Mounts, elems(a.Mounts)
+//@   ensures [app]  len(a.Mounts) == old(len(a.Mounts)) + 1 && a.Mounts[old(len(a.Mounts))] == m
+//@   ensures [pre]  forall i int :: 0 <= i && i < old(len(a.Mounts)) ==> a.Mounts[i] == old(a.Mounts[i])
+//@   ensures [arr]  base(a.Mounts) == old(base(a.Mounts)) || fresh(a.Mounts)
+
+//@ func ContainerAdjustment.AddCDIDevice
+//@   props C20
+//@   requires a != nil
+//@   modifies a.CDIDevices, elems(a.CDIDevices)
+//@   ensures [app]  len(a.CDIDevices) == old(len(a.CDIDevices)) + 1 && a.CDIDevices[old(len(a.CDIDevices))] == d
+//@   ensures [pre]  forall i int :: 0 <= i && i < old(len(a.CDIDevices)) ==> a.CDIDevices[i] == old(a.CDIDevices[i])
+//@   ensures [arr]  base(a.CDIDevices) == old(base(a.CDIDevices)) || fresh(a.CDIDevices)
+
+//@ func ContainerAdjustment.AddDevice
+//@   props C20
+//@   requires a != nil
+//@   modifies a.Linux, a.Linux.Devices, elems(a.Linux.Devices)
+//@   ensures [lin]  a.Linux != nil && (old(a.Linux) != nil ==> a.Linux == old(a.Linux)) && (old(a.Linux) == nil ==> fresh(a.Linux) && a.Linux.Resources == nil)
+//@   ensures [app]  len(a.Linux.Devices) == old(len(a.Linux.Devices)) + 1 && a.Linux.Devices[old(len(a.Linux.Devices))] == d
+//@   ensures [pre]  forall i int :: 0 <= i && i < old(len(a.Linux.Devices)) ==> a.Linux.Devices[i] == old(a.Linux.Devices[i])
+//@   ensures [arr]  base(a.Linux.Devices) == old(base(a.Linux.Devices)) || fresh(a.Linux.Devices)
+
+//@ func ContainerAdjustment.AddRlimit
+//@   props C20
+//@   requires a != nil
+//@   modifies a.Rlimits, elems(a.Rlimits)
+//@   ensures [app]  len(a.Rlimits) == old(len(a.Rlimits)) + 1 && fresh(a.Rlimits[old(len(a.Rlimits))])
+//@                  && a.Rlimits[old(len(a.Rlimits))].Type == typ && a.Rlimits[old(len(a.Rlimits))].Hard == hard && a.Rlimits[old(len(a.Rlimits))].Soft == soft
+//@   ensures [pre]  forall i int :: 0 <= i && i < old(len(a.Rlimits)) ==> a.Rlimits[i] == old(a.Rlimits[i])
+//@   ensures [arr]  base(a.Rlimits) == old(base(a.Rlimits)) || fresh(a.Rlimits)
